@@ -1,3 +1,5 @@
 import Model.Browser
 import Model.Diag
 import Model.Slice
+import Model.Num
+import Model.Bonferroni
